@@ -20,7 +20,7 @@ CHECKS = {
    text="Every history (reduced alphabet depth 6/7, full alphabet depth 3/4; capacities 1, 2, 16; plain and batched; manual and eager polling) followed by dropping the vector, as a token at any point and as the epilogue of every sequence; every stream is then polled to its end. No stream may end while the vector lives, after the drop everything pending (or a Reset to the final state) is delivered before None, the replica at None equals the final contents, and the waker of a Pending subscriber is woken by the drop. The evidence counts the four situations (up to date / mid-batch / behind within capacity / behind beyond capacity) separately.",
    note="found the lost-final-state defect repaired by repo commit 57072f3 (see known_findings.json)"),
  "C17": dict(design="5 (C17)", tech=SEQ,
-   text="Every mutator of ObservableVector and of the transaction with every in-range argument and with out-of-range indices len, len+1, len+2 (under catch_unwind: must panic, contents unchanged, nobody notified), depth 3 (quick) / 4 (thorough) from initial lengths 0..3, compared call by call with a plain Vec model (return values and contents). Traversal: every decision vector keep/set/remove/set-then-remove/stop over vectors of length 0..4 (5 thorough) through for_each and entries(), directly and inside a transaction: each element visited once in order, index() equals the current position, removal does not skip the successor, contents and emitted diffs equal the model's.",
+   text="Every mutator of ObservableVector and of the transaction with every in-range argument and with out-of-range indices len, len+1, len+2 (under catch_unwind: must panic, contents unchanged, nobody notified), depth 4 (quick) / 5 (thorough) from initial lengths 0..3, compared call by call with a plain Vec model (return values and contents). Traversal: every decision vector keep/set/remove/set-then-remove/stop over vectors of length 0..4 (5 thorough) through for_each and entries(), directly and inside a transaction: each element visited once in order, index() equals the current position, removal does not skip the successor, contents and emitted diffs equal the model's.",
    note="imbl's own panics count as panics of the mutator"),
  "C09": dict(design="5 (C09)", tech=SEQ,
    text="Head, Tail and Skip, each with a static limit 0..4, a purely dynamic limit and a dynamic limit with initial value 0..4, fed by an eyeball Observable (subscribe / subscribe_reset) or a queue that delivers every announced value; plain and batched subscriber; capacities 16 and 1 (Reset from lag); eager and manual polling; initial vectors of length 0..3. Every sequence of source mutators, transactions, limit announcements 0..5 and polls to depth 3 (quick) / 4 (thorough), plus limit-source and vector drops on a reduced alphabet to depth 4/5. A transparent tap below the adapter gives one view check per input-item boundary and per Pending against first/last/all-but-first of the input replica under the limit the adapter has seen; at Pending the limit must be the latest announced and the input replica the live vector; every diff must be applicable; the stream must end exactly when the source ends.",
@@ -41,7 +41,7 @@ CHECKS = {
    text="Polls are tokens, so every placement of a poll relative to every source update, limit/count change, limit-source drop and vector drop is enumerated (manual polling, depth 4/5 reduced and 2/3 full alphabet for single adapters incl. all limit sources, depth 3/4 for all 400 two-stage chains; plain and batched subscriber streams themselves to depth 5/7). Every poll gets a fresh flag waker; a stream that answers Ready after a Pending poll whose waker was never woken is a violation; for the subscriber streams the waker must already be woken when the broadcasting call (or the drop) returns.",
    note="spurious wake-ups are allowed; the queue limit source registers wakers correctly by construction"),
  "C15": dict(design="5 (C15)", tech=SEQ,
-   text="Static Head and Tail with limits 0..4, both flavours, capacities 16 and 1, initial vectors 0..3 (0..4 in the deep sweep): every sequence to depth 3 (quick) / 4 (thorough) on the full alphabet and 4/6 on the reduced one; the rebuilt view's length is compared with the limit after each individual diff (inside batches too) and for the initial values.",
+   text="Static Head and Tail with limits 0..4, both flavours, capacities 16 and 1, initial vectors 0..3 (0..4 in the deep sweep): every sequence to depth 4 (quick) / 5 (thorough) on the full alphabet and 5/7 on the reduced one; the rebuilt view's length is compared with the limit after each individual diff (inside batches too) and for the initial values.",
    note="checked on the tap's per-diff replica; a wrong view with a legal length is C09's business"),
  "C01": dict(design="4 (C01)", tech=SEQ,
    text="Every sequence of setters (set, set_if_not_eq, set_if_hash_not_eq, take, update, update_if with all four mutate/answer combinations; three values of which two are different but hash-equal) on the unique Observable, on SharedObservable clones and through write guards, interleaved with every subscriber call (poll as Stream / next() / next_ref(), next_now, next_ref_now, get, read, reset, clone, clone_reset, drop) on up to 2-3 subscribers, to depth 4 (quick) / 5 (thorough) from 11 start states, in lock-step with a value/epoch model: every value handed out is the latest, a poll is Ready exactly when the model says an unobserved notifying update exists (or after reset), every setter returns and notifies exactly as stated, get/read never mark, next_now marks, clone copies.",
